@@ -1727,6 +1727,18 @@ func extractConnLegacy(repo, root string) error {
 		return fmt.Errorf("untranslated: %v", err)
 	}
 	fmt.Fprintf(&b, "/-- message_reader.go: discard() rewinds to the root reader; compressed v2 / v1 pushes charge `remain` with what the codec consumed -/\ndef readerStackFacts : KV.ReaderStack.Facts := { discardRewinds := %v, v2AccountsConsumed := %v, v1AccountsConsumed := %v }\n\n", rsf[0], rsf[1], rsf[2])
+	// the state a Conn carries from one operation to the next: the fields of the struct
+	if st := x.structs["Conn"]; st != nil {
+		var fs []string
+		for _, f := range st.Fields.List {
+			for _, n := range f.Names {
+				fs = append(fs, n.Name)
+			}
+		}
+		fmt.Fprintf(&b, "/-- the fields of `type Conn struct` (conn.go): everything a Conn carries from one operation to the next -/\ndef connFields : List String := [%s]\n\n", quoteAll(fs))
+	} else {
+		return fmt.Errorf("untranslated: type Conn struct not found")
+	}
 	hs, err := headerSizes(filepath.Join(repo, "message_reader.go"))
 	if err != nil {
 		return fmt.Errorf("untranslated: %v", err)
